@@ -178,7 +178,7 @@ class UserObjfunError(Exception):
 
 
 def mk_controller(E, n, m, num_pts, npt_so_far, preset='default', with_h=False, xr=False, with_save=None,
-                  maxfun_hi=None, objfun=None, kopt_minimal=True):
+                  maxfun_hi=None, objfun=None, kopt_minimal=True, scaling=False):
     """
     An arbitrary Controller state satisfying INV (see DESIGN section 3):
       1 <= nx <= nf <= maxfun; eval numbers of occupied slots in [1, nx];
@@ -214,4 +214,12 @@ def mk_controller(E, n, m, num_pts, npt_so_far, preset='default', with_h=False, 
     C.last_successful_run = E.int('lsr', 0, None)
     C.last_run_fopt = E.real('lrf', npy=False)
     C.num_slow_iters = E.int('nslow', 0, None)
+    if scaling:
+        # internal scaling record as solve builds it: (lower, upper - lower, upper) in user units
+        shift = E.vec('shift', n)
+        scale = E.vec('scale', n)
+        E.assume(E.all([scale[i] > 0 for i in range(n)]))
+        sc = (shift, scale, shift + scale)
+        C.scaling_changes = sc
+        M.scaling_changes = sc
     return C, M, ghost, params
